@@ -394,6 +394,70 @@ def short(path, primary):
     return path.replace(primary, "<result>")
 
 
+
+# ------------------------------------------------------------------------------------------ lossless restore
+VALUE_KEY_PREFIXES = ("coeff", "tdh_wfns", "mt_", "tensor_")       # complex-capable numerical content
+LOSSLESS = {"item", "copy", "tolist", "asxp", "asnumpy", "Matrix", "np.asarray", "np.array", "xp.asarray", "complex", "<subscript>", "<assign>", "setattr"}
+LOSSY = {"real", "imag", "astype", "round", "float", "int", "abs", "bool", "np.real", "np.imag", "np.abs", "np.float64", "np.float32", "np.around", "np.round", "clip"}
+META_OK = {"int", "bool", "astype", "tolist", "str", "item", "<subscript>", "<assign>", "<compare>", "setattr", "copy", "np.array", "np.asarray"}
+
+
+def lossless_restore_rule(chk, src):
+    """every value read from the archive reaches its attribute through value-preserving conversions only"""
+    n = 0
+    for rel in (MP, MPS, "renormalizer/tn/tree.py"):
+        for fi in src.funcs_in(rel):
+            if not fi.qual.endswith(".load"):
+                continue
+            parents = {}
+            for p_ in ast.walk(fi.node):
+                for c_ in ast.iter_child_nodes(p_):
+                    parents[c_] = p_
+            for sub in ast.walk(fi.node):
+                if not (isinstance(sub, ast.Subscript) and isinstance(sub.value, ast.Name) and sub.value.id == "npload"):
+                    continue
+                k = sub.slice
+                if isinstance(k, ast.Constant):
+                    key = str(k.value)
+                elif isinstance(k, ast.JoinedStr):
+                    key = "".join(str(v.value) if isinstance(v, ast.Constant) else "{}" for v in k.values)
+                else:
+                    key = "<" + unparse(k) + ">"       # npload[attr]: any dumped attribute
+                is_value = key.startswith(VALUE_KEY_PREFIXES) or key.startswith("<")
+                chain = []
+                cur = sub
+                while cur in parents and not isinstance(parents[cur], ast.stmt):
+                    par = parents[cur]
+                    if isinstance(par, ast.Attribute) and par.value is cur:
+                        gp = parents.get(par)
+                        if isinstance(gp, ast.Call) and gp.func is par:
+                            chain.append(par.attr)
+                            cur = gp
+                            continue
+                        chain.append(par.attr)
+                    elif isinstance(par, ast.Call) and cur in par.args:
+                        chain.append(unparse(par.func))
+                    elif isinstance(par, ast.Subscript) and par.value is cur:
+                        chain.append("<subscript>")
+                    elif isinstance(par, ast.Compare):
+                        chain.append("<compare>")
+                    elif isinstance(par, (ast.keyword, ast.Starred, ast.Tuple, ast.List)):
+                        pass
+                    else:
+                        chain.append("<" + type(par).__name__ + ">")
+                    cur = par
+                n += 1
+                allowed = LOSSLESS if is_value else (META_OK | LOSSLESS)
+                lossy = [c for c in chain if c in LOSSY and c not in allowed]
+                unknown = [c for c in chain if c not in allowed and c not in LOSSY]
+                if unknown:
+                    raise AnalysisError(f"{fi.where}: conversion {unknown} applied to npload[{key!r}] is not classified (value-preserving or not?) in rules/C14.py")
+                chk.ob("lossless-restore", f"{fi.qual}: npload[{key!r}]", not lossy, fi.where, chain or "as stored", "value-preserving conversions only (item, indexing, array wrappers)", line=sub.lineno,
+                       detail=f"{fi.qual} restores {key!r} through {lossy}: part of the stored value is dropped (e.g. the phase of a complex prefactor or the imaginary part of the tensors), "
+                              "so a reloaded state differs from the dumped one only for complex content")
+    return n
+
+
 def run(chk):
     src = chk.src
     chk.explanation = (
@@ -414,6 +478,8 @@ def run(chk):
     chk.rule("state-attrs", "every state-defining attribute is both dumped and assigned on load", 12)
     chk.rule("crash-points", "from every reachable abstract directory state holding a complete result file, a complete result "
              "file exists after every file-system effect of dump_dict (exhaustive)", 3)
+    chk.rule("lossless-restore", "numerical content read from the archive is restored without narrowing conversions", 10)
+    lossless_restore_rule(chk, src)
     chk.rule("dump-completes", "normal completion of dump_dict leaves the primary result file complete", 1)
 
     io = IO(src, chk)
